@@ -68,6 +68,7 @@ func (w *World) verifyFunc(fn *ssa.Function, c *Contract) *FnRun {
 	}
 	// ghost counters are non-negative
 	st.assume(sx("<=", "0", sx("select", st.heap["I"], r.ghostCell(1))))
+	st.assume(sx("<", "0", sx("select", st.heap["I"], r.ghostCell(2)))) // the clock reads a positive time
 	for _, rq := range c.Requires {
 		g := env.eval(rq.Expr)
 		if env.err != nil {
@@ -76,6 +77,8 @@ func (w *World) verifyFunc(fn *ssa.Function, c *Contract) *FnRun {
 		}
 		st.assume(g.S)
 	}
+	r.entryEnv = env
+	r.assumeGlobalInvs(st)
 	r.entry = st.clone()
 	env.old = r.entry
 	for _, g := range c.Ghosts {
@@ -127,6 +130,13 @@ func (o *Oblig) scriptLite() string {
 	return o.scriptOpt(true, false)
 }
 
+// scriptCOI: hypotheses restricted to the cone of influence of the goal (sound subset).
+func (o *Oblig) scriptCOI(lite bool) string {
+	o.coi, o.lite = true, lite
+	defer func() { o.coi, o.lite = false, false }()
+	return o.scriptOpt(true, false)
+}
+
 // scriptOpt: relaxed=true drops every quantified hypothesis and axiom; a model
 // of the relaxed query is only a candidate and must be confirmed by replay.
 func (o *Oblig) scriptOpt(withModel, relaxed bool) string {
@@ -138,23 +148,32 @@ func (o *Oblig) scriptOpt(withModel, relaxed bool) string {
 	b.WriteString("(set-logic ALL)\n")
 	body := strings.Builder{}
 	asserts := strings.Builder{}
+	var pcList []string
 	for _, a := range o.PC.list() {
 		if relaxed && strings.Contains(a, "(forall ") {
 			continue
 		}
+		pcList = append(pcList, a)
+	}
+	var skDecls []string
+	var goalAsserts []string
+	if !o.Cover {
+		d, a := negateGoal(o.Goal, 0)
+		skDecls = d
+		goalAsserts = a
+	}
+	if o.coi && !o.Cover {
+		pcList = coneOfInfluence(pcList, goalAsserts)
+	}
+	for _, a := range pcList {
 		asserts.WriteString("(assert ")
 		asserts.WriteString(a)
 		asserts.WriteString(")\n")
 	}
-	var skDecls []string
-	if !o.Cover {
-		d, a := negateGoal(o.Goal, 0)
-		skDecls = d
-		for _, x := range a {
-			asserts.WriteString("(assert ")
-			asserts.WriteString(x)
-			asserts.WriteString(")\n")
-		}
+	for _, x := range goalAsserts {
+		asserts.WriteString("(assert ")
+		asserts.WriteString(x)
+		asserts.WriteString(")\n")
 	}
 	for _, gf := range r.globalFacts {
 		// facts about package-level objects that occur in the query
@@ -602,4 +621,121 @@ func replaceToken(text, tok, repl string) string {
 		i = j + len(tok)
 	}
 	return b.String()
+}
+
+func isHeapSym(t string) bool {
+	if len(t) < 3 || t[0] != 'H' {
+		return false
+	}
+	switch t[1] {
+	case 'I', 'B', 'R', 'S', 'A':
+		return strings.Contains(t, "!")
+	}
+	return false
+}
+
+// coneOfInfluence keeps the hypotheses connected to the goal: an assertion is
+// kept if it mentions a relevant non-heap symbol, or if it defines / frames a
+// relevant heap version.  Dropping hypotheses is sound for proving.
+func coneOfInfluence(pc []string, goal []string) []string {
+	type info struct {
+		syms  []string
+		heaps []string
+		def   string // heap defined by this assertion ("" if none)
+		vdef  string // value symbol defined by this assertion: (= sym!N term)
+	}
+	infos := make([]info, len(pc))
+	for i, a := range pc {
+		seen := map[string]bool{}
+		for tok := range tokenSet(a) {
+			if !strings.Contains(tok, "!") || strings.HasPrefix(tok, "lit!") || strings.HasPrefix(tok, "q!") || strings.HasPrefix(tok, "sk!") {
+				continue
+			}
+			if seen[tok] {
+				continue
+			}
+			seen[tok] = true
+			if isHeapSym(tok) {
+				infos[i].heaps = append(infos[i].heaps, tok)
+			} else {
+				infos[i].syms = append(infos[i].syms, tok)
+			}
+		}
+		if strings.HasPrefix(a, "(= H") {
+			if j := strings.IndexByte(a[3:], ' '); j > 0 && isHeapSym(a[3:3+j]) {
+				infos[i].def = a[3 : 3+j]
+			}
+		} else if strings.HasPrefix(a, "(= ") && len(a) > 4 && a[3] != '(' {
+			if j := strings.IndexByte(a[3:], ' '); j > 0 && strings.Contains(a[3:3+j], "!") {
+				infos[i].vdef = a[3 : 3+j]
+			}
+		} else if strings.HasPrefix(a, "(forall ((r Ref))") || strings.HasPrefix(a, "(forall ((b Ref)") {
+			// frame axiom of a havoc: defines the newest heap it mentions
+			best := ""
+			bestN := -1
+			for _, h := range infos[i].heaps {
+				if k := strings.LastIndex(h, "!"); k > 0 {
+					n := 0
+					fmt.Sscanf(h[k+1:], "%d", &n)
+					if n > bestN {
+						bestN, best = n, h
+					}
+				}
+			}
+			infos[i].def = best
+		}
+	}
+	rel := map[string]bool{}
+	for _, g := range goal {
+		for tok := range tokenSet(g) {
+			if strings.Contains(tok, "!") {
+				rel[tok] = true
+			}
+		}
+	}
+	keep := make([]bool, len(pc))
+	changed := true
+	for changed {
+		changed = false
+		for i := range pc {
+			if keep[i] {
+				continue
+			}
+			inc := false
+			if infos[i].def != "" && rel[infos[i].def] {
+				inc = true
+			}
+			if !inc && infos[i].vdef != "" {
+				// a definition is needed only if the defined symbol is
+				inc = rel[infos[i].vdef]
+			} else if !inc {
+				for _, s := range infos[i].syms {
+					if rel[s] {
+						inc = true
+						break
+					}
+				}
+			}
+			if !inc && len(infos[i].syms) == 0 && len(infos[i].heaps) == 0 {
+				inc = true // ground facts
+			}
+			if inc {
+				keep[i] = true
+				changed = true
+				for _, s := range infos[i].syms {
+					rel[s] = true
+				}
+				for _, h := range infos[i].heaps {
+					rel[h] = true
+				}
+			}
+		}
+	}
+	var out []string
+	for i, a := range pc {
+		if keep[i] {
+			out = append(out, a)
+		}
+	}
+	return out
 }
